@@ -183,6 +183,15 @@ def run(ctx):
     ctx.rule("C11.R8", "comparisons follow the value ordering on lists too: Value::compare walks both lists with compare on each pair, returns the first non-Equal answer (including 'not comparable') and breaks ties by length", floor=2)
     from rules import c12 as c12_
     c12_.list_compare_rule(ctx, "C11.R8", core)
+    # "fails exactly when some element operation fails", as the user sees it: the failure of a statement - an `output` declaration
+    # included - ends the run with an error
+    ctx.rule("C11.R10", "a dot-prefixed comparison written directly after a number keeps its dot: a number literal never ends in a bare `.` (so `5.==[5,6]` is the non-broadcasting `.==`, not `5. == [5,6]`)", floor=1)
+    from rules import c10 as c10_
+    from lib.peg import Grammar as G_
+    c10_.dot_needs_digit(ctx, "C11.R10", G_(ctx.grammar))
+    ctx.rule("C11.R9", "an operator failure is a program failure: in the CLI's statement loop every Err of the evaluation (plain statements and `output` declarations alike) reaches the non-zero exit, none is dropped on the way", floor=2)
+    from rules import c19 as c19_
+    c19_.evaluation_errors_are_fatal(ctx, "C11.R9", ctx.cli)
     ctx.rule("C11.R4", "in the list-list copy the `len() != len()` test with error exit is the first thing that happens: no value is produced and no element is read before it", floor=1)
     blk = H.strip(C.arm_ll["body"])
     ok, why = False, "list-list arm is not a block"
